@@ -54,11 +54,12 @@ Impl(d1, d2, d3) ==
         \A a, b \in Range(C.ops[i].loc) : a < b =>
            IF d2 THEN Stored(Phys(a), Phys(b)) ELSE Coupled(Phys(a), Phys(b))
   /\ RadixOK
-Cause == IF Impl(TRUE, TRUE, TRUE) # C.verdict THEN "unexplained"
-         ELSE IF Impl(TRUE, FALSE, FALSE) = C.verdict THEN "placeholder-tested-against-gate-set"
-         ELSE IF Impl(FALSE, TRUE, FALSE) = C.verdict THEN "placement-pair-not-sorted"
-         ELSE IF Impl(FALSE, FALSE, TRUE) = C.verdict THEN "barrier-counted-as-coupling"
-         ELSE "barrier-with-unsorted-pair"
+\* (short codes: TLC wraps printed tuples longer than a line)
+Cause == IF Impl(TRUE, TRUE, TRUE) # C.verdict THEN "none"      \* not explained by the three known deviations
+         ELSE IF Impl(TRUE, FALSE, FALSE) = C.verdict THEN "d1"   \* placeholder tested against the gate set
+         ELSE IF Impl(FALSE, TRUE, FALSE) = C.verdict THEN "d2"   \* placement pair looked up unsorted
+         ELSE IF Impl(FALSE, FALSE, TRUE) = C.verdict THEN "d3"   \* barrier counted as a coupling
+         ELSE "d23"                                               \* barrier whose placed pair is looked up unsorted
 
 Init == tid \in 1..Len(Cases)
 Next == UNCHANGED tid
@@ -68,5 +69,5 @@ CheckExec == IF C.kind # "out" \/ ExecClause = "ok" THEN TRUE ELSE PrintT(<<"VER
 CheckVerdict ==
   IF ~C.has_verdict \/ C.verdict = Compatible THEN TRUE
   ELSE PrintT(<<"VERDICT", tid, 0, "is_compatible-verdict",
-                IF Compatible THEN "false-negative" ELSE "false-positive", Cause>>)
+                IF Compatible THEN "FN" ELSE "FP", Cause>>)
 =============================================================================
